@@ -15,6 +15,8 @@
 //     jobs that need two workers at once: all must come back (deadlock detection).
 #include <verif.hpp>
 
+#include <memory>
+
 #include <tlx/thread_pool.hpp>
 
 using verif::Rng;
@@ -29,9 +31,18 @@ static void pause_point(bool demote = false) {
 struct JobRec {
     std::atomic<int> runs{ 0 };
     uint64_t enq_call = 0, enq_ret = 0, start = 0, end = 0;
+    uint64_t destroyed = 0;   // ticket at which the job's closure (and what it captured by value) was destroyed
     int plain = 0;
     int depth = 0;
 };
+//! captured by value in every job closure: its destructor is part of the job
+struct ClosureGuard {
+    JobRec* rec;
+    explicit ClosureGuard(JobRec* r) : rec(r) {}
+    ClosureGuard(const ClosureGuard&) = delete;
+    ~ClosureGuard();
+};
+
 struct Waiter { uint64_t call = 0, ret = 0; size_t done_at_ret = 0; size_t ids_at_call = 0; bool with_externals = false; bool terminate = false; };
 
 struct World {
@@ -44,6 +55,8 @@ struct World {
     explicit World(size_t cap) : jobs(cap) {}
 };
 
+ClosureGuard::~ClosureGuard() { pause_point(); rec->destroyed = dsched::tick(); }
+
 //! enqueue a job that may enqueue children
 static void spawn(World& w, int depth, unsigned fanout, unsigned pauses) {
     size_t id = w.next.fetch_add(1);
@@ -51,7 +64,8 @@ static void spawn(World& w, int depth, unsigned fanout, unsigned pauses) {
     JobRec& j = w.jobs[id];
     j.depth = depth;
     j.enq_call = dsched::tick();
-    w.pool->enqueue([&w, id, depth, fanout, pauses]() {
+    std::shared_ptr<ClosureGuard> guard = std::make_shared<ClosureGuard>(&j);
+    w.pool->enqueue([&w, id, depth, fanout, pauses, guard]() {
         JobRec& me = w.jobs[id];
         me.start = dsched::tick();
         me.runs.fetch_add(1);
@@ -61,6 +75,7 @@ static void spawn(World& w, int depth, unsigned fanout, unsigned pauses) {
             for (unsigned c = 0; c < fanout; ++c) spawn(w, depth - 1, fanout, pauses ? pauses - 1 : 0);
         me.end = dsched::tick();
     });
+    guard.reset();
     j.enq_ret = dsched::tick();
 }
 
@@ -77,13 +92,15 @@ static bool check_jobs_once(const World& w, size_t upto, bool must_have_run, con
 static bool check_quiescent_instant(const World& w, size_t njobs, const Waiter& wt, const std::string& what) {
     // candidate instants: just after `call` and just after each job's end within (call, ret)
     std::vector<uint64_t> cand{ wt.call };
-    for (size_t i = 0; i < njobs; ++i) if (w.jobs[i].end > wt.call && w.jobs[i].end < wt.ret) cand.push_back(w.jobs[i].end);
+    auto finished = [](const JobRec& j) { return j.end == 0 || j.destroyed == 0 ? (uint64_t)0 : std::max(j.end, j.destroyed); };
+    for (size_t i = 0; i < njobs; ++i) { uint64_t f = finished(w.jobs[i]); if (f > wt.call && f < wt.ret) cand.push_back(f); }
     for (uint64_t b : cand) {
         bool covered = false;   // is the gap (b, b+1) inside some [enq_ret, end] ?
         for (size_t i = 0; i < njobs && !covered; ++i) {
             const JobRec& j = w.jobs[i];
             if (j.enq_ret == 0 || j.enq_ret > b) continue;
-            if (j.end == 0 || j.end >= b + 1) covered = true;   // never ended, or ended later
+            uint64_t f = finished(j);
+            if (f == 0 || f >= b + 1) covered = true;   // never finished (body or closure teardown), or finished later
         }
         if (!covered) return true;
     }
@@ -185,12 +202,15 @@ static void scenario_graph(Rng& rng) {
             if (j.end == 0 || j.end > dtor_ret) { verif::fail("C10:destructor:returned-while-job-running", "job " + std::to_string(i) + " was still running when ~ThreadPool returned | " + g_scenario); return; }
         }
     }
+    for (size_t i = 0; i < n; ++i)
+        if (w.jobs[i].enq_ret && (w.jobs[i].destroyed == 0 || w.jobs[i].destroyed > dtor_ret)) { verif::fail("C10:destructor:job-closure-not-destroyed", "the closure of job " + std::to_string(i) + " outlived ~ThreadPool | " + g_scenario); return; }
     verif::count("jobs_executed", ran);
     if (n > ran) verif::count("jobs_dropped_by_terminate_or_destructor", n - ran);
     for (const Waiter& wt : waits) {
         // jobs whose enqueue had returned before the call: all done at the return
         for (size_t i = 0; i < n; ++i) {
             const JobRec& j = w.jobs[i];
+            if (j.enq_ret != 0 && j.enq_ret < wt.call && j.end != 0 && j.end < wt.ret && (j.destroyed == 0 || j.destroyed > wt.ret)) { verif::fail("C10:loop_until_empty:job-closure-not-destroyed", "job " + std::to_string(i) + " had run, but its closure (objects captured by value) was still being destroyed when loop_until_empty() returned | " + g_scenario); return; }
             if (j.enq_ret != 0 && j.enq_ret < wt.call && (j.end == 0 || j.end > wt.ret)) { verif::fail("C10:loop_until_empty:job-not-finished", "job " + std::to_string(i) + " was enqueued before loop_until_empty() was called but had not finished when it returned | " + g_scenario); return; }
         }
         if (!check_quiescent_instant(w, n, wt, "loop_until_empty")) return;
